@@ -17,4 +17,167 @@ def isSortedBy {α : Type} (le : α → α → Bool) : List α → Bool
 def sameMultiset (a b : List Nat) : Bool :=
   a.length == b.length && a.all fun x => (a.filter (· == x)).length == (b.filter (· == x)).length
 
+/-! ## closed forms for the remaining vector instructions
+
+Each result vector is given by its **length and its elements** (`tab n f`), each scalar by a
+mathematical expression (the integer sum reduced into `i32`, the number of `true` elements …), written
+from the doc comments of `vector.rs`; `vecExpect` is evaluated on the implementation's outcome and
+`C09.vec_sound` proves that the model meets it. `none` = no statement (operands missing, or an
+instruction that has its own evaluator: element-wise, SORT, RAND, LOOP). -/
+
+/-- the vector with `n` elements whose `j`-th element is `f j` -/
+def tab {α : Type} (n : Nat) (f : Nat → α) : List α := (List.range n).map f
+
+/-- the mathematical sum of the elements, reduced into `i32` -/
+def sumSpec (v : List Int32) : Int32 := Int32.ofInt (v.map Int32.toInt).sum
+
+/-- ROTATE: every element moves one position to the left, the scalar becomes the last element;
+an empty vector stays empty -/
+def rotateSpec {α : Type} (v : List α) (x : α) : List α := tab v.length fun j => v.getD (j + 1) x
+
+/-- SET: the element at the clamped index is replaced, everything else (and the length) is kept -/
+def setSpec {α : Type} (v : List α) (i : Int32) (x : α) : List α :=
+  tab v.length fun j => if j = clampIdx v.length i then x else v.getD j x
+
+def appendSpec {α : Type} (v : List α) (x : α) : List α := tab (v.length + 1) fun j => v.getD j x
+
+/-- BOOLVECTOR.NOT with an offset: position `j` is flipped exactly when `0 ≤ j - off < len` -/
+def notSpec (v : List Bool) (off : Int) : List Bool :=
+  tab v.length fun j => if 0 ≤ (j : Int) - off ∧ (j : Int) - off < v.length then !(v.getD j false) else v.getD j false
+
+/-- indices of the `true` elements, ascending -/
+def boolIndexSpec (v : List Bool) : List Int32 :=
+  ((List.range v.length).filter fun j => v.getD j false).map lenI32
+
+/-- FROMINT: `k = max(min(n, depth), 0)` integers below the count, the deepest of them first -/
+def fromIntSpec (n : Int32) (il : List Int32) : List Int32 × List Int32 :=
+  let k := (max (min n.toInt il.length) 0).toNat
+  (tab k fun j => il.getD (k - 1 - j) 0, il.drop k)
+
+/-- a zero divisor inside the overlap -/
+def zeroDivisorInOverlap (second top : List Float32) (off : Int) : Bool :=
+  (List.range second.length).any fun j =>
+    decide (0 ≤ (j : Int) - off) && (match top[((j : Int) - off).toNat]? with
+      | some t => t == 0
+      | none => false)
+
+/-- scalar stack, vector stack, "one", "zero" of a vector type -/
+structure VKit (α : Type) where
+  sc : Lens α
+  vs : Lens (List α)
+  one : α
+  zero : α
+
+def kitB : VKit Bool := ⟨Lens.bool, Lens.bvec, true, false⟩
+def kitI : VKit Int32 := ⟨Lens.int, Lens.ivec, 1, 0⟩
+def kitF : VKit Float32 := ⟨Lens.float, Lens.fvec, 1, 0⟩
+
+/-- statements shared by the three vector types -/
+def genericExpect {α : Type} (K : VKit α) (o : VecOp) (s : State) : Option State :=
+  match o with
+  | .length => match K.vs.get s with
+    | v :: _ => some (pushInt s (lenI32 v.length))
+    | [] => none
+  | .ones => match s.int with
+    | n :: il => some (if n > 0 then K.vs.set { s with int := il } (tab n.toInt.toNat (fun _ => K.one) :: K.vs.get { s with int := il })
+                       else { s with int := il })
+    | [] => none
+  | .zeros => match s.int with
+    | n :: il => some (if n > 0 then K.vs.set { s with int := il } (tab n.toInt.toNat (fun _ => K.zero) :: K.vs.get { s with int := il })
+                       else { s with int := il })
+    | [] => none
+  | _ => none
+
+def vecExpect : VTy → VecOp → State → Option State
+  -- BOOLVECTOR
+  | .b, .count, s => match s.bvec with
+    | v :: _ => some (pushInt s (lenI32 (v.count true)))
+    | [] => none
+  | .b, .get, s => match s.int, s.bvec with
+    | i :: il, v :: _ => some (match v[clampIdx v.length i]? with
+        | some x => { s with int := il, bool := x :: s.bool }
+        | none => { s with int := il })
+    | _, _ => none
+  | .b, .set, s => match s.int, s.bool, s.bvec with
+    | i :: il, b :: bl, v :: l => some { s with int := il, bool := bl, bvec := setSpec v i b :: l }
+    | _, _, _ => none
+  | .b, .not, s => match s.bvec, s.int with
+    | v :: l, off :: il => some { s with int := il, bvec := notSpec v off.toInt :: l }
+    | _, _ => none
+  | .b, .rotate, s => match s.bool, s.bvec with
+    | b :: bl, v :: l => some { s with bool := bl, bvec := rotateSpec v b :: l }
+    | _, _ => none
+  | .b, .equal, s => match s.bvec with
+    | b :: a :: l => some { s with bvec := l, bool := (a == b) :: s.bool }
+    | _ => none
+  | .b, o, s => genericExpect kitB o s
+  -- INTVECTOR
+  | .i, .append, s => match s.ivec, s.int with
+    | v :: l, x :: il => some { s with int := il, ivec := appendSpec v x :: l }
+    | _, _ => none
+  | .i, .boolindex, s => match s.bvec with
+    | v :: l => some { s with bvec := l, ivec := boolIndexSpec v :: s.ivec }
+    | [] => none
+  | .i, .get, s => match s.int, s.ivec with
+    | i :: il, v :: _ => some (match v[clampIdx v.length i]? with
+        | some x => { s with int := x :: il }
+        | none => { s with int := il })
+    | _, _ => none
+  | .i, .set, s => match s.int, s.ivec with
+    | i :: x :: il, v :: l => some { s with int := il, ivec := setSpec v i x :: l }
+    | _, _ => none
+  | .i, .contains, s => match s.int, s.ivec with
+    | x :: il, v :: l => some { s with int := il, ivec := l, bool := decide (x ∈ v) :: s.bool }
+    | _, _ => none
+  | .i, .empty, s => some { s with ivec := [] :: s.ivec }
+  | .i, .equal, s => match s.ivec with
+    | b :: a :: l => some { s with ivec := l, bool := decide (a = b) :: s.bool }
+    | _ => none
+  | .i, .fromint, s => match s.int with
+    | n :: il => some { s with int := (fromIntSpec n il).2, ivec := (fromIntSpec n il).1 :: s.ivec }
+    | [] => none
+  | .i, .remove, s => match s.ivec, s.int with
+    | v :: l, x :: il => some { s with int := il, ivec := v.filter (fun y => decide (y ≠ x)) :: l }
+    | _, _ => none
+  | .i, .rotate, s => match s.int, s.ivec with
+    | x :: il, v :: l => some { s with int := il, ivec := rotateSpec v x :: l }
+    | _, _ => none
+  | .i, .setInsert, s => match s.int, s.ivec with
+    | x :: il, v :: l => some { s with int := il, ivec := (if x ∈ v then v else appendSpec v x) :: l }
+    | x :: il, [] => some { s with int := il, ivec := [[x]] }
+    | _, _ => none
+  | .i, .sum, s => match s.ivec with
+    | v :: _ => some (pushInt s (sumSpec v))
+    | [] => none
+  | .i, o, s => genericExpect kitI o s
+  -- FLOATVECTOR
+  | .f, .append, s => match s.fvec, s.float with
+    | v :: l, x :: fl => some { s with float := fl, fvec := appendSpec v x :: l }
+    | _, _ => none
+  | .f, .get, s => match s.int, s.fvec with
+    | i :: il, v :: _ => some (match v[clampIdx v.length i]? with
+        | some x => { s with int := il, float := x :: s.float }
+        | none => { s with int := il })
+    | _, _ => none
+  | .f, .set, s => match s.int, s.float, s.fvec with
+    | i :: il, x :: fl, v :: l => some { s with int := il, float := fl, fvec := setSpec v i x :: l }
+    | _, _, _ => none
+  | .f, .empty, s => some { s with fvec := [] :: s.fvec }
+  | .f, .mulScalar, s => match s.float, s.fvec with
+    | f :: fl, v :: l => some { s with float := fl, fvec := (tab v.length fun j => v.getD j 0 * f) :: l }
+    | _, _ => none
+  | .f, .rotate, s => match s.float, s.fvec with
+    | x :: fl, v :: l => some { s with float := fl, fvec := rotateSpec v x :: l }
+    | _, _ => none
+  | .f, .sine, s => match s.float, s.int with
+    | amp :: freq :: phase :: fl, n :: il =>
+      some { s with float := fl, int := il, fvec := (tab n.toInt.toNat (sineAt amp freq phase)) :: s.fvec }
+    | _, _ => none
+  | .f, .div, s => match s.fvec, s.int with
+    | top :: second :: l, off :: il =>
+      some (if zeroDivisorInOverlap second top off.toInt then { s with int := il, fvec := l }
+            else { s with int := il, fvec := overlapSpec (· / ·) second top off.toInt :: l })
+    | _, _ => none
+  | .f, o, s => genericExpect kitF o s
+
 end Pushr.C09
